@@ -554,6 +554,9 @@ class MarkdownNormalizer(Renderer):
         self._in_heading = True
         self._current_inline_text = ""
         children_content = self.render_children(element)
+        # A setext heading may span several source lines; the ATX heading it is written as
+        # cannot, so line breaks inside it (soft or hard) become spaces.
+        children_content = re.sub(r"\\?\n", " ", children_content)
         self._in_heading = False
         self._current_inline_text = ""
         # If heading ends with hard break, don't add extra newline
